@@ -2894,7 +2894,9 @@ def _from_arrow(
             batches = obj.combine_chunks().to_batches()
             if len(batches) == 0:
                 # zero-length array with the right type
-                return from_buffers(_parquet_schema_to_form(obj.schema), 0, {})
+                return from_buffers(
+                    _parquet_schema_to_form(obj.schema), 0, {}, highlevel=False
+                )
             elif len(batches) == 1:
                 return handle_arrow(batches[0])
             else:
